@@ -83,7 +83,7 @@ def INTEGER_encode_oer (width : Nat) (positive : Bool) (bs : Bytes) : Option Byt
       else some (oerLenSerialize u.length ++ u)
 
 /-- the temporary INTEGER of `NativeInteger_encode_oer` / `_uper`:
-    `asn_ulong2INTEGER` (finding F2 inside) or `asn_long2INTEGER` of the native cell -/
+    `asn_ulong2INTEGER` or `asn_long2INTEGER` of the native cell -/
 def nativeToINTEGER (unsigned : Bool) (w : Nat) : Bytes :=
   if unsigned then ulong2INTEGER w else imax2INTEGER (toSigned64 w)
 
